@@ -145,15 +145,30 @@ func c10Embed(target string, ov int, v c10Vars) string {
 	return pre + "[" + a + "|" + b + "]"
 }
 
+// c10EmbedStyle: what stands between the overriding blocks of an embed body (and alone in a body that overrides
+// nothing): 0 nothing, 1 line breaks and comments, 2 comments with whitespace control and a comment that mentions tags.
+// None of it is content.
+var c10EmbedStyle int
+
+func c10Gap(i int) string {
+	switch c10EmbedStyle {
+	case 1:
+		return []string{"\n  {# overrides #}\n  ", "\n\n  {# second block #}\n  ", "\n{# done #}\n"}[i]
+	case 2:
+		return []string{"{#- a -#}", " {# {% block a %}old{% endblock %} {{ x }} #}\t", "{# é #}{##}"}[i]
+	}
+	return ""
+}
+
 func c10EmbedSrc(target string, ov int, args string) string {
-	s := "{% embed '" + target + "'" + args + " %}"
+	s := "{% embed '" + target + "'" + args + " %}" + c10Gap(0)
 	if ov >= 1 {
-		s += "{% block a %}ova x={{ x }}{% endblock %}"
+		s += "{% block a %}ova x={{ x }}{% endblock %}" + c10Gap(1)
 	}
 	if ov >= 2 {
 		s += "{% block b %}ovb{% endblock %}"
 	}
-	return s + "{% endembed %}"
+	return s + c10Gap(2) + "{% endembed %}"
 }
 
 // c10Stmt returns the source and the expected output of statement kind k at a call site with variables site.
@@ -378,7 +393,12 @@ func c10Run(c core.Case) core.Result {
 		tpls, ctx, want = c10Nested(c.N[0], c.N[1], c.N[2], c.N[3], c.N[4], c.N[5], c.N[6])
 	} else {
 		host, k, mode, hk := c.N[0], c.N[1], c.N[2], c.N[3]
+		c10EmbedStyle = 0
+		if len(c.N) > 4 {
+			c10EmbedStyle = c.N[4]
+		}
 		tpls, ctx, want = c10Build(host, k, mode, hk)
+		c10EmbedStyle = 0
 	}
 	env := stick.New(&stick.MemoryLoader{Templates: tpls})
 	env.Functions["probe"] = c07Env().Functions["probe"]
@@ -408,7 +428,7 @@ func c10Run(c core.Case) core.Result {
 
 func c10Levels(tier string) []core.Level {
 	return []core.Level{
-		{Name: "full product: 9 call sites / host states x 21 include/embed statements x {plain, with, only, with only} x 3 with-hashes (two literals and a host variable holding a Go map, which must be unchanged afterwards)", Gen: func(emit func(core.Case)) {
+		{Name: "full product: 9 call sites / host states x 21 include/embed statements x {plain, with, only, with only} x 3 with-hashes (two literals and a host variable holding a Go map, which must be unchanged afterwards); embed bodies with nothing / line breaks and comments / trimmed and tag-mentioning comments between the overriding blocks", Gen: func(emit func(core.Case)) {
 			for host := 0; host < c10Hosts; host++ {
 				for k := 0; k < c10Stmts; k++ {
 					for mode := 0; mode < 4; mode++ {
@@ -417,6 +437,11 @@ func c10Levels(tier string) []core.Level {
 								continue
 							}
 							emit(core.Case{Fam: "cfg", N: []int{host, k, mode, hk}})
+							if k >= 5 && k != 19 && k != 20 {
+								// the embed statements again with line breaks and comments between the overriding blocks
+								emit(core.Case{Fam: "cfg", N: []int{host, k, mode, hk, 1}})
+								emit(core.Case{Fam: "cfg", N: []int{host, k, mode, hk, 2}})
+							}
 						}
 					}
 				}
